@@ -178,25 +178,8 @@ Definition trim_left_go_r (s : bytes) : bytes := trim_left_u usp2r usp3r s.   (*
 Definition trim_right_go (s : bytes) : bytes := rev (trim_left_go_r (rev s)). (* TrimRightFunc(s, unicode.IsSpace) *)
 Definition trim_space_go (s : bytes) : bytes := trim_right_go (trim_left_go s).
 
-(* strings.Fields for ASCII white space.
-   TODO (known model gap, strings.Fields).  Go's strings.Fields splits around runs of
-   unicode.IsSpace runes, i.e. also around the UTF-8 encodings listed at [trim_space_go] (the string
-   is decoded left to right with `range`; an invalid byte is a one-byte rune that is not a space).
-   [fields] splits on the six ASCII blanks only.  Callers: Message.parse_request_line,
-   Message.parse_status_line (message.go:160, 173), Hdr.parse_via_param (via.go:176, the text before
-   the first ';'), Hdr.parse_cseq (cseq.go:18).  Model and code differ e.g. on the CSeq value
-   "1" C2 A0 "INVITE" (Go: two fields, decoded; model: one field, Err) and on a Request-URI that
-   contains C2 A0 (Go: four fields, rejected; model: three, accepted).  A faithful [fields_go]:
-   scan left to right; at each position an ASCII blank, a [usp2] pair or a [usp3] triple is a
-   separator (skip 1 / 2 / 3 bytes), any other byte joins the current field (same structural
-   recursion as [trim_left_u]).  Using it requires: SpecC14.wf_via / wf_cseq to exclude
-   Unicode-space sequences INSIDE name, version, transport, host and method ([safe_char] allows
-   bytes >= 128); the judges SpecProxy.j_via / single_blanks / start-line readers, SpecProxy2 (CSeq
-   method, status code) and SpecRx.words_aux to split the same way; the start-line hypotheses of
-   C01_judge_bridge_request / _response (stated with [fields]) restated; and the repair of
-   proofs/C14_via.v (fields_two, via_head_fields, rp_cseq_fields), C01.v (start-line bridge),
-   C08.v, C11.v.  No generator produces a Unicode space in a start line, a Via sent-protocol /
-   sent-by or a CSeq value. *)
+(* the blank-separated words, ASCII white space only: what the judges' own line readers use
+   (SpecProxy, SpecProxy2).  The MODEL of the Go code uses [fields_go] below. *)
 Fixpoint fields_aux (s : bytes) (cur : bytes) : list bytes :=
   match s with
   | [] => match cur with [] => [] | _ => [rev cur] end
@@ -205,6 +188,46 @@ Fixpoint fields_aux (s : bytes) (cur : bytes) : list bytes :=
               else fields_aux r (c :: cur)
   end.
 Definition fields (s : bytes) : list bytes := fields_aux s [].
+
+(* strings.Fields.  Go splits around runs of runes r with unicode.IsSpace(r): the six ASCII blanks
+   and the Unicode White_Space runes listed at [trim_space_go].  The string is decoded left to
+   right (`range` / utf8.DecodeRuneInString); a byte that does not begin a valid encoding is a
+   one-byte rune (RuneError) that is not a space.  A space rune begins at position i exactly when
+   the bytes at i are one of the [usp2] / [usp3] sequences: their lead bytes (C2, E1, E2, E3) are
+   never continuation bytes, so such a sequence cannot begin inside a valid multi-byte rune, and
+   an invalid byte before it is consumed alone.  So: scan left to right; an ASCII blank, a [usp2]
+   pair or a [usp3] triple is a separator (skip 1 / 2 / 3 bytes), any other byte joins the current
+   field.  Structural recursion as in [trim_left_u]; [cur] is the current field, reversed; linear.
+   Callers: Message.parse_request_line, Message.parse_status_line (message.go parseRequestLine /
+   parseStatusLine), Hdr.parse_via_param (via.go, the text before the first ';'), Hdr.parse_cseq
+   (cseq.go). *)
+Definition flush_field (cur : bytes) (k : list bytes) : list bytes :=
+  match cur with [] => k | _ => rev cur :: k end.
+Fixpoint fields_go_aux (s : bytes) (cur : bytes) : list bytes :=
+  match s with
+  | [] => flush_field cur []
+  | c :: r =>
+      if is_space c then flush_field cur (fields_go_aux r [])
+      else match r with
+           | [] => fields_go_aux r (c :: cur)
+           | c2 :: r2 =>
+               if usp2 c c2 then flush_field cur (fields_go_aux r2 [])
+               else match r2 with
+                    | [] => fields_go_aux r (c :: cur)
+                    | c3 :: r3 =>
+                        if usp3 c c2 c3 then flush_field cur (fields_go_aux r3 [])
+                        else fields_go_aux r (c :: cur)
+                    end
+           end
+  end.
+Definition fields_go (s : bytes) : list bytes := fields_go_aux s [].
+
+(* no Unicode-space byte sequence begins anywhere in [s] (ASCII blanks are not looked at) *)
+Fixpoint no_usp (s : bytes) : bool :=
+  match s with
+  | [] => true
+  | _ :: r => negb (starts_with_uspace s) && no_usp r
+  end.
 
 (* ---- case ---- *)
 Definition lower_byte (c : ascii) : ascii :=
